@@ -13,6 +13,7 @@ import (
 	"github.com/openGemini/openGemini/engine/executor"
 	"github.com/openGemini/openGemini/engine/immutable"
 	"github.com/openGemini/openGemini/engine/index/tsi"
+	"github.com/openGemini/openGemini/lib/compress"
 	"github.com/openGemini/openGemini/lib/config"
 	"github.com/openGemini/openGemini/lib/cpu"
 	"github.com/openGemini/openGemini/lib/index"
@@ -67,6 +68,11 @@ type SKnobs struct {
 	// compaction-method of the store configuration: 0 auto (streaming only for very large chunks), 1 streaming,
 	// 2 non-streaming; absent in older replay files = auto
 	CompactMethod int `json:"compact_method,omitempty"`
+	// encoder settings of the store configuration file, drawn only by the C07 check (absent = product defaults):
+	// string-compress-algo 0 snappy 1 lz4 2 zstd; float-compress-algorithm "" / "mlf"; chunk-meta-compress-mode 0..3
+	StrAlgo       int  `json:"str_algo,omitempty"`
+	FloatMLF      bool `json:"float_mlf,omitempty"`
+	ChunkMetaMode int  `json:"cm_mode,omitempty"`
 }
 
 func genKnobs(r *core.Rand) SKnobs {
@@ -103,6 +109,21 @@ func applyKnobs(k SKnobs) {
 	}
 	executor.EnableFileCursor(k.FileCursor)
 	immutable.SetMergeFlag4TsStore(int32(k.CompactMethod))
+	// encoder settings: what ts-store does at start-up (config.SetStoreConfig, compress.Init,
+	// immutable.SetChunkMetaCompressMode).  A string coder keeps the compressor it was first
+	// used with and coders are pooled, so the pools are emptied when the setting changes
+	// (a store process never changes it while running).
+	algo := []string{config.CompressAlgoSnappy, config.CompressAlgoLZ4, config.CompressAlgoZSTD}[((k.StrAlgo%3)+3)%3]
+	if config.GetStoreConfig().StringCompressAlgo != algo {
+		config.GetStoreConfig().StringCompressAlgo = algo
+		immutable.VerifDropPooledCoders()
+	}
+	config.GetStoreConfig().FloatCompressAlgorithm = ""
+	if k.FloatMLF {
+		config.GetStoreConfig().FloatCompressAlgorithm = compress.FloatCompressAlgorithmMLF
+	}
+	compress.Init()
+	immutable.SetChunkMetaCompressMode(((k.ChunkMetaMode % 4) + 4) % 4)
 	// the size that triggers an automatic memtable flush; assigned directly because
 	// the setter clamps it to >= 30 MiB (a knob value, not a production setting)
 	lim := k.MutableLimit
